@@ -209,7 +209,22 @@ def _one_path(run, repo, sc, res, scen, d, meas, F):
             raise AnalysisError(f'{scen}: numerator of the conditional probability of column {j} is not one slice of the weights: {nsel}')
         max_, bit = ints[0]
         modes = _mode_sites(X)
-        # the sum
+        # the sum -- itself, not clipped: theta is never normalised, so the sum is the JOINT probability of the bits drawn so far and legitimately decays like 2^-j;
+        # a lower bound by an absolute constant replaces it for long registers and the quotient is then no conditional probability
+        dex = den.tags.get('expr') if isinstance(den, Arr) else None
+        if dex and dex[0] in ('maximum', 'add') and any(isinstance(o_, (int, float)) and not isinstance(o_, bool) and o_ != 0 or
+                                                        (isinstance(o_, Arr) and o_.ndim == 0 and isinstance(o_.tags.get('value'), (int, float)) and o_.tags['value'] != 0) or
+                                                        (isinstance(o_, Arr) and o_.ndim == 0 and o_.origin in ('finfo', 'eps')) for o_ in dex[1]) and \
+                any(isinstance(o_, Arr) and _strip(o_).origin == 'sum' for o_ in dex[1]):
+            summed = [o_ for o_ in dex[1] if isinstance(o_, Arr) and _strip(o_).origin == 'sum'][0]
+            if any((a_.tags.get('expr') or ('',))[0] == 'truediv' or a_.origin in ('truediv', 'norm') for a_ in _ancestors(summed)):
+                # (an environment that is re-normalised on the way keeps the sum of order one: the guard is then harmless -- not decided here)
+                raise AnalysisError(f'{scen}: measured site {j}: the normalising sum is clipped by a constant, and the weights are re-scaled on the way: not decided')
+            run.oblige('D3', (ENTRY, scen, j, 'normaliser'), False)
+            run.add(F('D3', 'normaliser of the conditional probability', f'{scen}: measured site {j}: the sum of the weights is ' + ('clipped from below by' if dex[0] == 'maximum' else 'shifted by') +
+                      ' an absolute constant before it divides: the weights are joint probabilities of the bits drawn so far (the environment is never normalised) and fall below any '
+                      'fixed constant for long registers; the quotient is then not P(0 | earlier bits)', node))
+            continue
         if not (isinstance(den, Arr) and den.origin == 'sum' and den.parents):
             raise AnalysisError(f'{scen}: denominator of the conditional probability of column {j} is not a sum -- form not recognised')
         sum_of = _strip(den.parents[0])
